@@ -437,7 +437,11 @@ class HistogramND(HistogramBase):
         frequencies, errors2, missed = calculate_nd_frequencies(
             values_array, self._binnings, weights=weights
         )
-        self._add_contents(frequencies, errors2 if errors2 is not None else frequencies)
+        self._add_contents(
+            frequencies,
+            errors2 if errors2 is not None else frequencies,
+            missed=missed if self.keep_missed else 0,
+        )
         if self.keep_missed:
             self._missed[0] += missed
 
